@@ -239,9 +239,9 @@ def main():
         'setup_cmd': 'sh tools/setup.sh',
         'hooks': {
             'guard': 'LIBVNA_VERIF',
-            'enable': 'checks compile /repo/src/*.c themselves with -DLIBVNA_VERIF -fsanitize=address,undefined into /verif/.cache (tools/vlib.py build_c); one source hook: _vnacal_new_verif_hash_dump at the end of src/vnacal_new_parameter.c (read-only dump of the parameter table of a vnacal_new_t), called by the harness op `cal hash_dump`',
+            'enable': 'checks compile /repo/src/*.c themselves with -DLIBVNA_VERIF -fsanitize=address,undefined into /verif/.cache (tools/vlib.py build_c); two source hooks: _vnacal_new_verif_hash_dump at the end of src/vnacal_new_parameter.c (read-only dump of the parameter table of a vnacal_new_t, harness op `cal hash_dump`) and _vnacal_new_verif_connectivity_dump at the end of src/vnacal_new_add_common.c (read-only dump of the S zero pattern and connectivity matrix of every standard, harness op `cal conn_dump`)',
             'baseline_off_cmd': 'sh tools/baseline_off.sh',
-            'source_commits': ['bc97fe1'],
+            'source_commits': ['bc97fe1', 'c59f173'],
             'add_only': True,
         },
         'engines': [{'name': 'lean4-proof+correspondence', 'path': 'tools/check.py',
